@@ -1,10 +1,10 @@
 (* C09 — searching an alias over shards equals searching one index with all documents.
    Property theorems only (each closed by [exact]) + Print Assumptions.
-   Model: Collect/Shards.v; proofs: Collect/ShardsSort.v, ShardsProofs.v, ShardsFacetProofs.v;
+   Model: Collect/Shards.v; proofs: Collect/ShardsSort.v, ShardsProofs.v, ShardsFacetProofs.v, ShardsFacetTree.v;
    T1 facts: Extracted.XAlias, obligations Extracted/Obligations_C09.v. *)
 From Coq Require Import ZArith List Permutation.
 From Verif Require Import Common.Bytes Collect.Shards Collect.ShardsSort Collect.ShardsProofs
-  Collect.ShardsFacetProofs Extracted.Extracted Extracted.Obligations_C09.
+  Collect.ShardsFacetProofs Collect.ShardsFacetTree Extracted.Extracted Extracted.Obligations_C09.
 Import ListNotations.
 Local Open Scope Z_scope.
 
@@ -57,6 +57,18 @@ Theorem C09_facet_merge_exact : forall size (s0 : list (list bytes)) (shards : l
   = terms_build size (concat (s0 :: shards)).
 Proof. exact facet_merge_exact. Qed.
 Print Assumptions C09_facet_merge_exact.
+
+(* ... and through any tree of aliases (every alias level merges and calls Fixup): if every member's
+   facet result is the terms facet of its own matches ([D lf] = the term lists of the documents member
+   [lf] matched) and the size covers the terms of the union, the alias returns the terms facet of the union *)
+Theorem C09_alias_tree_facets : forall g name size (D : leaf -> list (list bytes)) t rq r,
+  wf_tree t = true -> q_fsizes rq = [(name, size)] ->
+  Forall (fun lf => l_facets lf = [(name, terms_build size (D lf))]) (leaves t) ->
+  zlen (terms_count (flat_map D (leaves t))) <= size ->
+  search g t rq = Some r ->
+  r_facets r = [(name, terms_build size (flat_map D (leaves t)))].
+Proof. exact alias_tree_facets. Qed.
+Print Assumptions C09_alias_tree_facets.
 
 (* size_zero_page — the statement of topk_merge for EVERY size >= 0:
 
